@@ -32,6 +32,9 @@ impl InstructionGenerator {
         for i in 0..else_if_blocks.len() {
             let else_if_block = else_if_blocks[i].clone();
             self.label(&format!("else-if-{}", i), pos);
+            // the ELSEIF line is a statement of its own: RESUME after an error in its
+            // condition evaluates the condition again
+            self.mark_statement_address();
 
             // evaluate condition into A
             self.generate_expression_instructions(else_if_block.condition);
